@@ -185,6 +185,10 @@ func convertMapItemSeen(typ reflect.Type, in interface{}, seen map[_mapConversio
 		// a back-reference to a map arrives as a pointer to it: the map behind it
 		// is converted here, with the maps under conversion still remembered
 		raw = raw.Elem()
+		if raw.Type() == typ {
+			// the map behind the reference already has the type asked for
+			return raw
+		}
 	}
 	if typ.Kind() == reflect.Map && raw.Kind() == reflect.Map {
 		key := _mapConversion{raw.Pointer(), typ}
